@@ -866,7 +866,14 @@ def env_side(rng, perturbed, side):
                    p_fwd=rng.choice([0, 0.1, 0.3]), p_back=rng.choice([0, 0.1, 0.3]),
                    p_stall=rng.choice([0, 0.1, 0.3])),
         junk=[rng.randrange(1 << 30), rng.choice([0, 3, 17, 120, 1000])],
-        poison='nan' if side == 'hist' else '1e300')
+        poison='nan' if side == 'hist' else '1e300',
+        environ={'TZ': rng.choice(['UTC', 'Europe/Vienna', 'Asia/Kolkata', 'Pacific/Chatham']),
+                 'COLUMNS': str(rng.choice([20, 80, 200])),
+                 'LANG': rng.choice(['C', 'de_AT.UTF-8', 'tr_TR.UTF-8']),
+                 'LC_NUMERIC': rng.choice(['C', 'de_DE.UTF-8']),
+                 'USER': rng.choice(['root', 'oe1rsa', 'nobody']),
+                 'HOME': rng.choice(['/', '/root', '/nonexistent']),
+                 '_cwd': rng.choice(['/', '/tmp', '/usr'])})
 
 
 def gen_plan(run_seed, tier='quick', env=None, kinds=None, shape=None):
